@@ -24,7 +24,7 @@ for d in seeded/C*-*; do
   else v="**NOT DETECTED**"; fi
   echo "| $s | $pid | $v ($(echo "$r" | grep -E '^check' | sed 's/.*discharged, //')) |" >> $OUT
 done
-for d in seeded/harmless-*; do
+for d in seeded/harmless-* seeded/benign-*; do
   s=$(basename $d)
   if ! git -C $REPO apply --check $PWD/$d/patch.diff 2>/dev/null; then
     echo "| $s | - | patch no longer applies |" >> $OUT; continue
@@ -48,7 +48,8 @@ for d in seeded/harmless-*; do
   res=""
   for p in $(echo $props | tr ' ' '\n' | sort -u); do
     r=$(timeout 3000 ./check $p --tier quick 2>&1)
-    if echo "$r" | grep -q "^VIOLATION"; then res="$res $p:ALARM"; else res="$res $p:quiet"; fi
+    if echo "$r" | grep -q "no-failing-input-found"; then res="$res $p:no-failing-input-found";
+    elif echo "$r" | grep -q "^VIOLATION"; then res="$res $p:ALARM-WITH-FAILING-INPUT"; else res="$res $p:quiet"; fi
   done
   git -C $REPO checkout -q -- . ; git -C $REPO clean -fdq -e target
   echo "| $s | $(echo $props | tr ' ' '\n' | sort -u | tr '\n' ' ') | $res |" >> $OUT
